@@ -90,6 +90,19 @@ def _setup(ex, case):
     if ex.pred:
         w.cs.register_auto_sync_callback(lambda path: path.rsplit("/", 1)[-1] == ex.pred)
     ex.monitors.append(Invariant())
+    ex.intake_broken = []
+    if fc or case.get("fault_table") is not None:
+        orig_step = w.step
+
+        def step(which):
+            seen = list(w.ctl.events_seen)
+            nf = len(w.ctl.fired)
+            out = orig_step(which)
+            if which < 2 and w.ctl.events_seen[which] > seen[which] and any(f[1] == which for f in w.ctl.fired[nf:]):
+                # an injected error hit this side's provider during an intake that had already been handed events
+                ex.intake_broken.append((w.ctl.step_no, which))
+            return out
+        w.step = step
 
     def remote_oid(rel):
         info = w.provs[1].info_path(w.roots[1] + rel)
@@ -177,6 +190,13 @@ def _listing(ex, rel):
 
 
 def _verdict(ex, case):
+    v = _verdict0(ex, case)
+    if isinstance(v, Violation) and getattr(ex, "intake_broken", None):
+        v.kw["intake_broken"] = [list(x) for x in ex.intake_broken]
+    return v
+
+
+def _verdict0(ex, case):
     w = ex.world
     ex.probes["app-calls"] = ex.calls
     if ex.nonquiescent:
@@ -237,14 +257,7 @@ def _gen(rng, ex, case, style):
         t0 = w.tree(0) or {}
         rfiles = [k for k, v in t1.items() if v[0] == "f"]
         item = None
-        if r < 0.06 and rfiles:
-            # a remote file is deleted and a new one made under the same name (its old entry stays behind as a tombstone)
-            f = rng.choice(rfiles)
-            if not ex.apply(["U", 1, "delete", f]):
-                continue
-            sched_after_op(rng, ex, style)
-            item = ["U", 1, "create", f, ex.new_payload()]
-        elif r < 0.35:
+        if r < 0.35:
             op = propose(rng, t1, {"create": 4, "write": 3, "delete": 1, "mkdir": 2}, ex.new_payload)
             if op:
                 item = ["U", 1] + list(op)
